@@ -195,6 +195,59 @@ pub fn run(r: &mut Report, ctx: &Ctx) {
         );
     }
 
+    if ctx.want("constructors") {
+        r.section(
+            "constructors",
+            "every way to obtain an empty generator (new(), Default::default(), a clone of a fresh one, clone_from of a fresh one into a used one) is observably the same generator: fed the same pieces they give the same processed_len and the same 32 finalizations as the reference; non-trivial = all",
+            "4 constructors x 4 histories x 5 variants",
+            true,
+            |s| {
+                fn go<V: Variant>(acc: &mut Acc)
+                where
+                    V::Gen: Default,
+                {
+                    let histories: [&[usize]; 4] = [&[], &[3, 2], &[64, 1, 0, 7], &[600]];
+                    for (hi, h) in histories.iter().enumerate() {
+                        let mut gens: Vec<(&'static str, V::Gen)> = vec![("new", V::new_gen()), ("default", <V::Gen as Default>::default()), ("clone-of-new", V::new_gen().clone())];
+                        let mut used = V::new_gen();
+                        used.update(b"some earlier, unrelated content ....");
+                        used.clone_from(&V::new_gen());
+                        gens.push(("clone_from-new-into-used", used));
+                        let mut r = V::ref_gen();
+                        let mut off = 0u64;
+                        for &k in h.iter() {
+                            let data = Stream::Mixed.bytes(off, k);
+                            for (_, g) in gens.iter_mut() {
+                                g.update(&data);
+                            }
+                            r.feed_all(&data);
+                            off += k as u64;
+                        }
+                        for (name, g) in gens.iter() {
+                            acc.evals += 1;
+                            acc.transitions += 33;
+                            acc.nontrivial += 1;
+                            match crate::explore_free::judge_state_free::<V>(g, &r) {
+                                Ok(()) => {
+                                    acc.outcomes.insert(hi as u64);
+                                }
+                                Err(e) => {
+                                    acc.fail(hi as u64, "constructors", format!("{} generator obtained by {name}, history {:?}: {e}", V::NAME, h), json!({"kind": "constructor", "variant": V::NAME, "constructor": name}));
+                                    return;
+                                }
+                            }
+                        }
+                    }
+                    acc.sample(0, || json!({"variant": V::NAME, "constructors": ["new", "default", "clone-of-new", "clone_from-new-into-used"]}));
+                }
+                go::<VShort>(&mut s.acc);
+                go::<VNormal>(&mut s.acc);
+                go::<VNormalLC>(&mut s.acc);
+                go::<VLong>(&mut s.acc);
+                go::<VLongLC>(&mut s.acc);
+            },
+        );
+    }
     if ctx.want("long-run") {
         let total: u64 = if quick { 3 << 20 } else { 40 << 20 };
         r.section(
